@@ -105,5 +105,34 @@ check("bind: with a current twin the old version is forgotten, not conflated", F
 st = IF(L("c"), RET(2), 2)
 check("post: after `if (c) return;` c is false", F.equivalent(post_formula(st), F.mk_not(F.atom("c"))))
 
+# 8. structured binding of a pair is .first/.second
+f = fn(SEQ({"k": "foreach", "l": 2, "range": L("m"), "var": {"n": "", "binds": ["k", "v"], "ty": "const std::pair<const int, Info> &"},
+            "b": SEQ(IF(LT([".", L("v"), "Info::h"], L("lim")), EX(CALL("hit"), 3), 3))}))
+fm = site_formula(f, "hit", naming(f))
+check("pair binding: `auto& [k, v] : m` reads like `kv.second`", F.fshow(fm) == "each(m).second.h < lim", F.fshow(fm))
+
+# 9. a search loop moved into a local predicate lambda analyses like the inline loop
+from sa.engine.ir import inline_predicate_ifs          # noqa: E402
+
+
+class FakeProgram:
+    def __init__(self, fns_):
+        self.funcs = {f_.q: [f_] for f_ in fns_}
+
+
+lam = Function({"q": "t::lambda@2:10", "file": "t.cpp", "l": 2, "end": 6, "params": [{"n": "x", "ty": "const T &"}],
+                "body": SEQ({"k": "foreach", "l": 3, "range": [".", ["param", "x"], "T::items"], "var": {"n": "it", "ty": "const I &"},
+                             "b": SEQ(IF(CALL("bad", L("it")), {"k": "ret", "l": 4, "v": ["bool", True]}, 4))},
+                            {"k": "ret", "l": 5, "v": ["bool", False]})}, None)
+outer = fn(SEQ(DECL("pred", "const auto", ["lambda", "t::lambda@2:10"], 2),
+               {"k": "foreach", "l": 7, "range": L("all"), "var": {"n": "e", "ty": "const T &"},
+                "b": SEQ(IF(["opcall", "()", "t::lambda@2:10", L("pred"), L("e")], {"k": "ret", "l": 8, "v": ["bool", False]}, 8))},
+               {"k": "ret", "l": 9, "v": ["bool", True]}))
+inline_predicate_ifs(outer, FakeProgram([lam, outer]))
+rets = [s_ for s_ in all_sites(outer) if s_.expr is None and s_.stmt.get("k") == "ret" and s_.stmt.get("l") == 8]
+check("predicate lambda: the rejecting return sits inside both loops under the inner test",
+      len(rets) == 1 and len(rets[0].loops) == 2 and F.fshow(rets[0].formula(naming(outer))) == "bad(each(each(all).items))",
+      [(len(r.loops), F.fshow(r.formula(naming(outer)))) for r in rets])
+
 print("engine tests: %d failures" % len(fails))
 sys.exit(1 if fails else 0)
